@@ -66,10 +66,17 @@ class IsoTpStateMachine:
             frame_type, telegram_len = bitstruct.unpack("u4u4", data)
             assert isinstance(telegram_len, int)
 
-            self.on_single_frame(telegram_idx, data[1:1 + telegram_len])
-            self.on_telegram_complete(telegram_idx, data[1:1 + telegram_len])
+            telegram_payload = data[1:1 + telegram_len]
+            if telegram_len == 0 and len(data) > 8:
+                # CAN-FD single frames carrying more than 7 bytes
+                # specify the telegram length in the second byte
+                telegram_len = data[1]
+                telegram_payload = data[2:2 + telegram_len]
 
-            yield (rx_id, data[1:1 + telegram_len])
+            self.on_single_frame(telegram_idx, telegram_payload)
+            self.on_telegram_complete(telegram_idx, telegram_payload)
+
+            yield (rx_id, telegram_payload)
 
         elif frame_type == IsoTp.FRAME_TYPE_FIRST:
             if len(data) < 2:
